@@ -112,6 +112,36 @@ def admin_decisions(ctx, p, ADMIN, before=None):
         if idx and (before is None or p.effects.index(e) <= before):
             # zero iterations (empty list) decide `not an admin` for whoever is asked: who stays None = wildcard
             out.append((who, hit, lst, idx))
+    # index scans: `while i < admins.len() { if admins[i] == who { return true } i += 1 }`
+    byloop = {}
+    for i, c in conds:
+        t = c[0]
+        if t[0] != "cmp":
+            continue
+        for a, b in ((t[2], t[3]), (t[3], t[2])):
+            base = ixv = None
+            if a[0] == "index":
+                base, ixv = a[1], a[2]
+            elif a[0] == "call" and a[1].endswith("Index>::index") and len(a[2]) == 2:
+                base, ixv = a[2]
+            elif a[0] == "call" and a[1] == "len" and t[1] == "lt" and a is t[3]:
+                # the loop guard i < admins.len()
+                l = _admins_of(a[2][0])
+                if l is not None and loaded_from(l) is not None and loaded_from(l)[0] == ADMIN and b[0] == "loopvar":
+                    byloop.setdefault(b[1], {"lst": l, "idx": [], "who": None, "hit": False})["idx"].append(i)
+                continue
+            if base is None or ixv[0] != "loopvar" or t[1] != "eq" or not isinstance(c[1], bool):
+                continue
+            l = _admins_of(base)
+            if l is None or loaded_from(l) is None or loaded_from(l)[0] != ADMIN:
+                continue
+            d = byloop.setdefault(ixv[1], {"lst": l, "idx": [], "who": None, "hit": False})
+            if d["who"] is None or d["who"] == b:
+                d["who"] = b
+                d["idx"].append(i)
+                d["hit"] = d["hit"] or c[1]
+    for lk, d in byloop.items():
+        out.append((d["who"], d["hit"], d["lst"], d["idx"]))
     return out
 
 
